@@ -8,7 +8,7 @@ theorem getVariablesV_spec {res : Res} {m0 : Content} {k0 : Cache} {st st' : St}
     {dv ro sv : Bool} {n : Norm} {cc : Bool} {v : View}
     (wf : WF res m0) (hm0 : createCache m0 = .ok k0) (hi : Inv res m0 st)
     (h : getVariablesV res dv ro sv n cc st = .ok (v, st')) :
-    specVariables res m0 dv ro sv n cc = .ok v ∧ Inv res m0 st' := by
+    specVariables res m0 dv ro sv n cc = .ok v ∧ Inv res m0 st' ∧ st'.model = st.model := by
   unfold getVariablesV at h
   unfold specVariables
   split at h
@@ -18,7 +18,7 @@ theorem getVariablesV_spec {res : Res} {m0 : Content} {k0 : Cache} {st st' : St}
     · cases h
     · rename_i v' hv
       cases h
-      exact ⟨adjust_spec hv, hi⟩
+      exact ⟨adjust_spec hv, hi, rfl⟩
   · rename_i hf
     rw [if_neg hf]
     exact getArgsV_spec wf hm0 hi h
@@ -27,24 +27,24 @@ theorem getFluxesV_spec {res : Res} {m0 : Content} {k0 : Cache} {st st' : St}
     {sur : Bool} {n : Norm} {cc : Bool} {v : View}
     (wf : WF res m0) (hm0 : createCache m0 = .ok k0) (hi : Inv res m0 st)
     (h : getFluxesV res sur n cc st = .ok (v, st')) :
-    specFluxes res m0 sur n cc = .ok v ∧ Inv res m0 st' :=
+    specFluxes res m0 sur n cc = .ok v ∧ Inv res m0 st' ∧ st'.model = st.model :=
   getArgsV_spec wf hm0 hi h
 
 theorem getCombinedV_spec {res : Res} {m0 : Content} {k0 : Cache} {st st' : St} {v : View}
     (wf : WF res m0) (hm0 : createCache m0 = .ok k0) (hi : Inv res m0 st)
     (h : getCombinedV res st = .ok (v, st')) :
-    specCombined res m0 = .ok v ∧ Inv res m0 st' := by
+    specCombined res m0 = .ok v ∧ Inv res m0 st' ∧ st'.model = st.model := by
   unfold getCombinedV at h
   split at h
   · cases h
   · rename_i a st1 hv
-    obtain ⟨hs1, hi1⟩ := getVariablesV_spec wf hm0 hi hv
+    obtain ⟨hs1, hi1, hm1⟩ := getVariablesV_spec wf hm0 hi hv
     split at h
     · cases h
     · rename_i b st2 hf
-      obtain ⟨hs2, hi2⟩ := getFluxesV_spec wf hm0 hi1 hf
+      obtain ⟨hs2, hi2, hm2⟩ := getFluxesV_spec wf hm0 hi1 hf
       cases h
-      refine ⟨?_, hi2⟩
+      refine ⟨?_, hi2, hm2.trans hm1⟩
       unfold specCombined
       rw [hs1]; simp only
       rw [hs2]
@@ -53,7 +53,7 @@ theorem getCombinedV_spec {res : Res} {m0 : Content} {k0 : Cache} {st st' : St} 
 
 theorem getNewY0V_spec {res : Res} {m0 : Content} {st st' : St} {v : View}
     (hi : Inv res m0 st) (h : getNewY0V res st = .ok (v, st')) :
-    specNewY0 res = .ok v ∧ Inv res m0 st' := by
+    specNewY0 res = .ok v ∧ Inv res m0 st' ∧ st'.model = st.model := by
   unfold getNewY0V getVariablesV at h
   simp only [Bool.or_self, Bool.not_false, if_true] at h
   unfold adjust at h
@@ -76,7 +76,7 @@ theorem getNewY0V_spec {res : Res} {m0 : Content} {st st' : St} {v : View}
         · rename_i r hr
           cases h
           rw [hr]
-          exact ⟨rfl, hi⟩
+          exact ⟨rfl, hi, rfl⟩
   · rename_i hx
     split at hx
     · cases hx
@@ -216,12 +216,12 @@ theorem rhsLoop_spec {m0 : Content} :
 
 theorem getRhsV_spec {res : Res} {m0 : Content} {st st' : St} {n : Norm} {cc : Bool} {v : View}
     (wf : WF res m0) (hi : Inv res m0 st) (h : getRhsV res n cc st = .ok (v, st')) :
-    specRhs res m0 n cc = .ok v ∧ Inv res m0 st' := by
+    specRhs res m0 n cc = .ok v ∧ Inv res m0 st' ∧ st'.model = st.model := by
   unfold getRhsV at h
   split at h
   · cases h
   · rename_i T st1 hca
-    obtain ⟨hs, hi1, hm⟩ := computeArgs_spec wf hi hca
+    obtain ⟨hs, hi1, _, hmod⟩ := computeArgs_spec wf hi hca
     split at h
     · cases h
     · rename_i ds c hl
@@ -229,9 +229,9 @@ theorem getRhsV_spec {res : Res} {m0 : Content} {st st' : St} {n : Norm} {cc : B
       · cases h
       · rename_i v' hv
         cases h
-        obtain ⟨hz, hc⟩ := rhsLoop_spec res.rawVars res.rawPars T st1.model ds c hi1.model
+        obtain ⟨hz, _⟩ := rhsLoop_spec res.rawVars res.rawPars T st'.model ds c hi1.model
           wf.covers wf.plainOnly wf.nodup hs hl
-        refine ⟨?_, ⟨hc, hi1.memo⟩⟩
+        refine ⟨?_, hi1, hmod⟩
         unfold specRhs
         rw [hz]
         exact adjust_spec hv
